@@ -121,16 +121,6 @@ pub async fn add_node(
         .to_string_lossy()
         .to_string();
 
-    if options.env_variables.is_some() {
-        node_registry
-            .environment_variables
-            .clone_from(&options.env_variables);
-        node_registry.save()?;
-    }
-
-    let mut added_service_data = vec![];
-    let mut failed_service_data = vec![];
-
     // Number the new services after the highest number recorded so far. The registry can have
     // gaps (a service that failed to install is not recorded), so its length is not a safe base.
     let current_node_count = node_registry
@@ -163,6 +153,18 @@ pub async fn add_node(
             u16::MAX
         )
     })?;
+
+    // nothing is recorded before the request has passed every check: a refused `add` leaves the registry as it was
+    if options.env_variables.is_some() {
+        node_registry
+            .environment_variables
+            .clone_from(&options.env_variables);
+        node_registry.save()?;
+    }
+
+    let mut added_service_data = vec![];
+    let mut failed_service_data = vec![];
+
     let mut node_port = get_start_port_if_applicable(options.node_port);
     let mut metrics_port = get_start_port_if_applicable(options.metrics_port);
     let mut rpc_port = get_start_port_if_applicable(options.rpc_port);
